@@ -46,6 +46,8 @@ for i, t in enumerate(prog["tasks"]):
             futs.append(ex.submit(T.echo, i))
         elif t[0] == "nap":
             futs.append(ex.submit(T.nap, i, t[1]))
+        elif t[0] == "tree":
+            futs.append(ex.submit(T.tree, i, t[1]))
         else:
             futs.append(ex.submit(T.big, i, t[1]))
     except BaseException as e:
